@@ -154,9 +154,10 @@ type simConn struct {
 	atGate  bool  // a Write waits at the gate
 	// read deadline bookkeeping: the scripted connection never lets time pass, it records whether the client
 	// would be woken by a deadline while the broker stalls
-	readArmed bool
-	delivered []byte // everything handed to the client so far
-	atStall   bool   // a Read waits for a broker that sends nothing
+	readArmed       bool
+	delivered       []byte // everything handed to the client so far
+	atStall         bool   // a Read waits for a broker that sends nothing
+	strictDeadlines bool   // deadline calls fail once the connection is closed (package net behaviour)
 	// slow Close
 	closeGate   bool
 	atCloseGate bool
@@ -319,18 +320,18 @@ func (c *simConn) Close() error {
 	return nil
 }
 
-func (c *simConn) LocalAddr() net.Addr  { return nil }
-func (c *simConn) RemoteAddr() net.Addr { return nil }
-func (c *simConn) SetDeadline(t time.Time) error {
-	c.mu.Lock()
-	c.readArmed = !t.IsZero()
-	c.mu.Unlock()
-	return nil
-}
+func (c *simConn) LocalAddr() net.Addr           { return nil }
+func (c *simConn) RemoteAddr() net.Addr          { return nil }
+func (c *simConn) SetDeadline(t time.Time) error { return c.SetReadDeadline(t) }
+
+// SetReadDeadline fails on a closed connection, as the connections of package net do.
 func (c *simConn) SetReadDeadline(t time.Time) error {
 	c.mu.Lock()
+	defer c.mu.Unlock()
+	if c.closed {
+		return net.ErrClosed
+	}
 	c.readArmed = !t.IsZero()
-	c.mu.Unlock()
 	return nil
 }
 
